@@ -456,14 +456,21 @@ def roundHE [HasFloor α] [IntCast α] (x : α) : α :=
   else if half < r then (((f + 1 : Int)) : α)
   else if f % 2 = 0 then ((f : Int) : α) else (((f + 1 : Int)) : α)
 
+/-- core/tensor.py:as_one_hot_tensor @72-76 on a label map `(N, 1, S)`: `zeros(N, C, S).scatter_(1, labels, 1)`,
+    i.e. entry `(n, c, s)` is 1 iff `labels(n, s) = c` (labels integral; equality via the order). -/
+def oneHot (C S : Nat) (lab : Nat → α) : Nat → α :=
+  fun i =>
+    let l := lab ((i / (C * S)) * S + i % S)
+    let c : α := (((i / S) % C : Nat) : α)
+    if l < c ∨ c < l then ((0 : Nat) : α) else ((1 : Nat) : α)
+
 /-- `x.narrow(1, 1, 1)` on an `(N, 2, S)` tensor: keep channel 1. -/
 def narrow1 (S : Nat) (f : Nat → α) : Nat → α := fun i => f ((i / S) * (2 * S) + S + i % S)
 
 /-- src: functional.py:tversky_index @216-335 with `normalize=False` (sigmoid/softmax are not
     modelled).  Branch table of the prediction/target/weight formats:
-    `target.ndim == input.ndim` @280-299, `target.ndim + 1 == input.ndim` @300-306 (binary only;
-    the multi-class label branch calls `as_one_hot_tensor` on a tensor without channel axis,
-    which raises `ValueError`), weights @313-327. -/
+    `target.ndim == input.ndim` @280-299, `target.ndim + 1 == input.ndim` @300-306 (binary:
+    threshold at ½; multi-class: one-hot encoding of the label map), weights @313-327. -/
 def tverskyPrep [HasFloor α] [IntCast α] (x y : T α) (w : Option (T α))
     (alpha beta eps : α) (binarize : Bool) : Except String (Nat × (Nat → α) × Option (Nat → α)) := do
   let one : α := ((1 : Nat) : α)
@@ -494,7 +501,14 @@ def tverskyPrep [HasFloor α] [IntCast α] (x y : T α) (w : Option (T α))
       if numClasses = 2 ∧ C = 1 then
         -- `target.unsqueeze(1).ge(0.5)`; rounding a 0/1 tensor changes nothing            @301-304
         .ok (1, yp0, fun i => if y.data i < half then ((0 : Nat) : α) else one)
-      else .error "err:value:one-hot"                                                           -- @305-306 (as_one_hot_tensor)
+      else
+        -- `as_one_hot_tensor(target.unsqueeze(1), num_classes)` @305-306 (fix 03f6276; here `C ≥ 2`, so
+        -- `num_classes = C`): `zeros(N, C, …X).scatter_(1, labels, 1)`; a label outside `[0, C)` makes
+        -- `scatter_` raise RuntimeError.  Labels are integral (the code requires an int64 tensor).
+        if (List.range (prod y.shape)).any (fun i =>
+            decide (y.data i < ((0 : Nat) : α)) || !decide (y.data i < ((numClasses : Nat) : α))) then
+          .error "err:runtime:scatter-index"
+        else .ok (C, yp0, oneHot C S y.data)
     else .error "err:value:target-ndim"                                                         -- @307-310
   let (C', yp, yv) ← r
   let yshape := N :: C' :: sp
